@@ -18,7 +18,8 @@ Core Lean only (linked into `pkmodel-c11`).  One definition per Go function, sam
   over crashes between any two steps.  A packer's reads of the index and its encryption are folded
   into its upload step (index rows are never modified once set, so this loses no behaviour).
 * Not modelled: `blobserver.MaxBlobSize` (a plaintext whose ciphertext exceeds it is refused by
-  `ReceiveNoHash`), errors of the wrapped stores (C13), non-sha224 plaintext refs.
+  `ReceiveNoHash`), non-sha224 plaintext refs.  Of the errors of the wrapped stores only a transient
+  failure of a `ReceiveBlob` of either store is modelled (`St.failBlobs`, `St.failMeta`); the rest is C13's.
 -/
 namespace Pk.Encrypt
 open Pk Pk.SMap
@@ -297,6 +298,12 @@ structure St where
   recv : Option Recv := none
   /-- newest first -/
   trace : List Call := []
+  /-- transient fault of the wrapped `blobs` store: its k-th next ReceiveBlob fails (0 = none armed) -/
+  failBlobs : Nat := 0
+  /-- the same for the wrapped `meta` store -/
+  failMeta : Nat := 0
+  /-- the last ReceiveBlob returned an error of a wrapped store -/
+  lastFailed : Bool := false
 deriving Repr, DecidableEq
 
 /-- the ReceiveBlob program read off the regenerated facts: the effect list (sub-store receives,
@@ -400,9 +407,13 @@ def jobStep (psteps : List PStep) (s : St) (j : Job) : St × Option Job :=
     match packedLines s.index (sortRefs j.plains) with
     | none => (s, none)
     | some ls =>
+      -- "failed to upload a packed meta": the goroutine logs and returns (meta.go:148)
+      if s.failMeta = 1 then ({ s with failMeta := 0 }, none)
+      else
       let enc := encryptBlob P s.nonce (fmtMeta ls)
       let br := P.digest enc
-      ({ s with metas := ins br enc s.metas, nonce := s.nonce + 1, trace := .putMeta br enc :: s.trace },
+      ({ s with metas := ins br enc s.metas, nonce := s.nonce + 1, trace := .putMeta br enc :: s.trace,
+                failMeta := s.failMeta - 1 },
        some { j with packed := some br, rest := rest })
   | .record :: rest =>
     match j.packed with
@@ -467,7 +478,7 @@ def recvBegin (rsteps : List RStep) (s : St) (plainBR plain : Bytes) : St × Opt
     if P.digest plain ≠ plainBR then (s, some .corrupt)
     else
       let enc := encryptBlob P s.nonce plain
-      ({ s with nonce := s.nonce + 1,
+      ({ s with nonce := s.nonce + 1, lastFailed := false,
                 recv := some ⟨plainBR, plain.length, enc, P.digest enc, none, rsteps⟩ }, none)
 
 /-- one micro-step of the ReceiveBlob in flight -/
@@ -478,13 +489,18 @@ def recvStep (psteps : List PStep) (s : St) : St :=
     match x.rest with
     | [] => { s with recv := none }
     | .putBlobs :: rest =>
+      -- a failing wrapped store: ReceiveBlob returns its error, nothing else happens (encrypt.go:177)
+      if s.failBlobs = 1 then { s with failBlobs := 0, lastFailed := true, recv := some { x with rest := [] } }
+      else
       { s with blobs := ins x.encBR x.encBytes s.blobs, trace := .putBlobs x.encBR x.encBytes :: s.trace,
-               recv := some { x with rest := rest } }
+               recv := some { x with rest := rest }, failBlobs := s.failBlobs - 1 }
     | .putMeta :: rest =>
+      if s.failMeta = 1 then { s with failMeta := 0, lastFailed := true, recv := some { x with rest := [] } }
+      else
       let m := makeSingleMetaBlob P s.nonce x.plainBR x.encBR x.size
       let br := P.digest m
       { s with metas := ins br m s.metas, nonce := s.nonce + 1, trace := .putMeta br m :: s.trace,
-               recv := some { x with metaBR := some br, rest := rest } }
+               recv := some { x with metaBR := some br, rest := rest }, failMeta := s.failMeta - 1 }
     | .record :: rest =>
       match x.metaBR with
       | some br => St.record P psteps { s with recv := some { x with rest := rest } } ⟨br, [x.plainBR]⟩
@@ -513,7 +529,7 @@ def receiveBlob (rsteps : List RStep) (psteps : List PStep) (late : Bool) (s : S
   | (s', some r) => (s', r)
   | (s', none) =>
     let s1 := recvRun P psteps late (rsteps.length + 1) s'
-    (drain P psteps (drainFuel s1) s1, .sized plain.length)
+    (drain P psteps (drainFuel s1) s1, if s1.lastFailed then .err else .sized plain.length)
 
 /-! ## Fetch, StatBlobs, EnumerateBlobs -/
 
